@@ -7,5 +7,6 @@ if ! git diff --quiet; then echo "/repo has uncommitted changes; refusing"; exit
 git apply "$PATCH" || { echo "patch does not apply"; exit 9; }
 cd /verif && ./check "$ID" --tier "$TIER" > /tmp/try_$ID.log 2>&1; RC=$?
 git -C /repo checkout -- . 
+git -C /verif checkout -- evidence 2>/dev/null  # evidence of a run against a seeded change is not kept
 git -C /repo clean -fdq -- packages examples 2>/dev/null
 echo "exit=$RC"; grep -E "^VIOLATION|signature|INCONCLUSIVE|HELD" /tmp/try_$ID.log | cut -c1-300 | head -${4:-12}
